@@ -589,7 +589,7 @@ func runC14(prop, tier string) int {
 	}
 	ntrees, P, K := 4, 4, 8
 	if tier == "thorough" {
-		ntrees, P, K = 60, 12, 60
+		ntrees, P, K = 24, 8, 24
 	}
 	opts := gen.DefaultCaseOpts
 	opts.PerIface, opts.Multi = 1, 3
